@@ -64,7 +64,7 @@ void finish_op(World& W, int wi)
     }
     if (s.kind == SKind::MacroStatic || s.kind == SKind::MacroDynamic) { if (s.evaluated) x.has_logged = true; }
     else x.has_logged = true;
-    if (!s.accepted && !s.threw && (s.kind == SKind::Normal || s.kind == SKind::Backtrace)) ++x.drops_unreported;
+    if (!s.accepted && !s.threw && (s.kind == SKind::Normal || is_bt_kind(s.kind) || s.kind == SKind::Named || s.kind == SKind::Dynamic)) ++x.drops_unreported;
   }
   else if (x.pending == OpKind::Flush)
   {
@@ -308,7 +308,18 @@ void op_log(World& W, int wi, bool in_burst, int ypoint, int logger_override = -
     dynamic = c.pick(3) == 2;
     s.kind = dynamic ? SKind::MacroDynamic : SKind::MacroStatic;
   }
-  if (s.kind == SKind::Backtrace || s.kind == SKind::BtNoInit || s.kind == SKind::NamedBtNoInit) s.level = 9;
+  else
+  {
+    // every other property: a tenth of the statements carry named arguments, a tenth a run-time level (the backend keeps
+    // both in per-slot state of the transit buffer, which is reused, moved on expansion and cleared per statement)
+    switch (c.weighted({8, 1, 1}))
+    {
+    case 1: s.kind = SKind::Named; break;
+    case 2: s.kind = SKind::Dynamic; break;
+    default: break;
+    }
+  }
+  if (is_bt_kind(s.kind) || s.kind == SKind::BtNoInit || s.kind == SKind::NamedBtNoInit) s.level = 9;
   if (s.kind == SKind::Named) s.level = 4;
   if (s.kind == SKind::BadTemplate || s.kind == SKind::BadSpec || s.kind == SKind::BtNoInit || s.kind == SKind::NamedBtNoInit ||
       (s.kind == SKind::Bomb && s.bomb_kind != 0))
@@ -328,6 +339,7 @@ void op_log(World& W, int wi, bool in_burst, int ypoint, int logger_override = -
     // the deferred-format argument is larger than the two integers it replaces (object + alignment slack)
     s.padlen = s.padlen > 32 ? s.padlen - 32 : 0;
   }
+  if (s.kind == SKind::Dynamic && s.padlen > 0) --s.padlen; // the run-time level travels as one more byte: keep the drawn total
   s.encoded = kStmtFixed + s.padlen + (s.kind == SKind::Bomb ? 32 : 0) + (s.kind == SKind::Dynamic ? 1 : 0);
   s.issue_idx = W.op_counter;
   bool stall = false;
@@ -351,6 +363,7 @@ void op_log(World& W, int wi, bool in_burst, int ypoint, int logger_override = -
     std::string d = "Log(w" + std::to_string(s.w) + "#" + std::to_string(is_macro ? x.next_seq : s.seq) + ",L" + std::to_string(li) + "," +
       std::to_string(s.encoded) + "B";
     if (kind == SKind::Backtrace) d += ",bt";
+    if (kind == SKind::NamedBacktrace) d += ",bt-named";
     if (kind == SKind::BadTemplate) d += ",badtemplate";
     if (kind == SKind::BadSpec) d += ",badspec";
     if (kind == SKind::Bomb) d += ",bomb" + std::to_string(bomb_kind);
@@ -386,13 +399,31 @@ void op_log(World& W, int wi, bool in_burst, int ypoint, int logger_override = -
           }
           break;
         case SKind::Named:
-          xp->res_accepted = lg->template log_statement<false, false>(quill::LogLevel::None, &kMdNamed, wid, seq, pad);
-          break;
         case SKind::NamedBtNoInit:
-          xp->res_accepted = lg->template log_statement<false, false>(quill::LogLevel::None, &kMdNamedBt, wid, seq, pad);
+        case SKind::NamedBacktrace:
+        {
+          quill::MacroMetadata const* md = (kind == SKind::Named) ? &kMdNamed : &kMdNamedBt;
+          if constexpr (kDropping)
+          {
+            char const* cpad = pad.c_str();
+            xp->res_accepted = lg->template log_statement<false, false>(quill::LogLevel::None, md, wid, seq, cpad);
+          }
+          else
+          {
+            xp->res_accepted = lg->template log_statement<false, false>(quill::LogLevel::None, md, wid, seq, pad);
+          }
           break;
+        }
         case SKind::Dynamic:
-          xp->res_accepted = lg->template log_statement<false, true>(static_cast<quill::LogLevel>(level), &kMdDyn, wid, seq, pad);
+          if constexpr (kDropping)
+          {
+            char const* cpad = pad.c_str();
+            xp->res_accepted = lg->template log_statement<false, true>(static_cast<quill::LogLevel>(level), &kMdDyn, wid, seq, cpad);
+          }
+          else
+          {
+            xp->res_accepted = lg->template log_statement<false, true>(static_cast<quill::LogLevel>(level), &kMdDyn, wid, seq, pad);
+          }
           break;
         case SKind::BadTemplate:
           xp->res_accepted = lg->template log_statement<false, false>(quill::LogLevel::None, &kMdBadTemplate, wid, seq, pad);
@@ -434,7 +465,7 @@ void op_flush(World& W, int wi, bool in_burst, int ypoint, int logger_override =
   for (size_t k = 0; k < W.stmts.size(); ++k)
   {
     Stmt const& s = W.stmts[k];
-    if (!s.call_done || !s.accepted || s.faulty || s.kind == SKind::Backtrace) continue;
+    if (!s.call_done || !s.accepted || s.faulty || is_bt_kind(s.kind)) continue;
     if (s.w == f.w || W.grace_ns > 0) f.must_be_written.push_back(k);
   }
   W.flushes.push_back(f);
@@ -480,7 +511,7 @@ void op_exit_thread(World& W, int wi, bool quiet = false)
   {
     for (auto const& s : W.stmts)
     {
-      if (s.w == wi + 1 && s.accepted && !s.faulty && s.kind != SKind::Backtrace && !stmt_written(W, s)) { W.lbl_exit_with_pending = true; break; }
+      if (s.w == wi + 1 && s.accepted && !s.faulty && !is_bt_kind(s.kind) && !stmt_written(W, s)) { W.lbl_exit_with_pending = true; break; }
     }
     W.log_op("Exit(w" + std::to_string(wi + 1) + ")");
   }
@@ -577,7 +608,9 @@ void op_bt_log(World& W, int wi, bool in_burst, int ypoint)
     return;
   }
   size_t before = W.stmts.size();
-  op_log(W, wi, in_burst, ypoint, li, static_cast<int>(SKind::Backtrace), true);
+  bool named_bt = W.c->pick(4) == 3; // the stored event owns its named args: they must come back with the replay
+  if (named_bt) W.r->label("named_backtrace_statement");
+  op_log(W, wi, in_burst, ypoint, li, static_cast<int>(named_bt ? SKind::NamedBacktrace : SKind::Backtrace), true);
   if (W.stmts.size() > before)
   {
     L.bt_events.push_back(BtEvent{'B', W.stmts.size() - 1, 0, 0});
